@@ -489,6 +489,12 @@ func batch(r *mon.Run, c Case) {
 	if c.Idx%3 == 0 {
 		bv = sr25519.NewBatchVerifierWithCapacity(size)
 	}
+	// another valid key and signature, to be decoded into the caller's objects after they were added
+	omsk, _ := sr25519.NewMiniSecretKeyFromBytes(mon.Bytes(rng, 32))
+	okp := omsk.ExpandUniform().KeyPair()
+	otherPkb, _ := okp.PublicKey().MarshalBinary()
+	osig, _ := okp.Sign(&fixed{mon.Bytes(rng, 32)}, sr25519.NewSigningContext([]byte("other")).NewTranscriptBytes([]byte("other")))
+	otherSigb, _ := osig.MarshalBinary()
 	signers := make([]signer, 0, 4)
 	for i := 0; i < 4; i++ {
 		if s, ok := mkSigner(r, c, mon.Bytes(rng, 32), i%2 == 1); ok {
@@ -544,7 +550,20 @@ func batch(r *mon.Run, c Case) {
 			single := pk.Verify(st, sig)
 			r.Hist(fmt.Sprintf("batch-entry/%s/single=%v", kind, single))
 			want = append(want, single)
-			bv.Add(pk, st, sig)
+			// the entry stands for the values of the key and signature objects at the time of Add: the caller decodes
+			// something else into its own objects right afterwards
+			pkb, e1 := pk.MarshalBinary()
+			sgb, e2 := sig.MarshalBinary()
+			var pkc sr25519.PublicKey
+			var sgc sr25519.Signature
+			if e1 == nil && e2 == nil && pkc.UnmarshalBinary(pkb) == nil && sgc.UnmarshalBinary(sgb) == nil {
+				bv.Add(&pkc, st, &sgc)
+				pkc.UnmarshalBinary(otherPkb)
+				sgc.UnmarshalBinary(otherSigb)
+				r.Hist("batch-entry/objects-overwritten-after-Add")
+			} else {
+				bv.Add(pk, st, sig)
+			}
 		}
 		allWant := len(want) > 0
 		for _, w := range want {
